@@ -1,0 +1,76 @@
+//! Verification hooks (cargo feature `verif-hooks`, off by default).
+//!
+//! These functions only observe the state of the model checker; they never
+//! change it. They exist so that an external harness can compare loom's
+//! bookkeeping with a formal model of it.
+
+use crate::rt;
+
+use std::cell::RefCell;
+
+/// Point of an iteration at which the iteration hook is called.
+#[derive(Debug, Clone, Copy, PartialEq, Eq)]
+pub enum Phase {
+    /// Before the iteration's closure starts running.
+    Start,
+    /// After the iteration completed and the leak check passed.
+    End,
+}
+
+/// Arguments: phase, iteration number (from 1), path (checkpoint JSON), thread
+/// table dump, object table dump.
+type Hook = Box<dyn FnMut(Phase, usize, &str, &str, &str)>;
+
+thread_local! {
+    static HOOK: RefCell<Option<Hook>> = RefCell::new(None);
+}
+
+/// Install (or remove) the hook called by `Builder::check` at the start and at
+/// the end of every iteration on this OS thread. The path string is the
+/// serde-JSON form of the execution path (the checkpoint format).
+pub fn set_iteration_hook(hook: Option<Hook>) {
+    HOOK.with(|h| *h.borrow_mut() = hook);
+}
+
+pub(crate) fn iteration(phase: Phase, iteration: usize, execution: &rt::Execution) {
+    HOOK.with(|h| {
+        // Take the hook out while it runs so that a hook that panics or
+        // re-enters does not poison the slot.
+        let taken = h.borrow_mut().take();
+        if let Some(mut hook) = taken {
+            let path = execution.verif_path();
+            let threads = execution.verif_threads();
+            let objects = execution.verif_objects();
+            hook(phase, iteration, &path, &threads, &objects);
+            let mut slot = h.borrow_mut();
+            if slot.is_none() {
+                *slot = Some(hook);
+            }
+        }
+    });
+}
+
+/// Thread table of the current execution. Must be called inside a model.
+pub fn snapshot() -> String {
+    rt::execution(|execution| execution.verif_threads())
+}
+
+/// Object table of the current execution. Must be called inside a model.
+pub fn objects() -> String {
+    rt::execution(|execution| execution.verif_objects())
+}
+
+/// Execution path of the current execution (checkpoint JSON). Must be called
+/// inside a model.
+pub fn path() -> String {
+    rt::execution(|execution| execution.verif_path())
+}
+
+/// Index and causality clock of the calling (active) loom thread. Must be
+/// called inside a model.
+pub fn current() -> (usize, String) {
+    rt::execution(|execution| {
+        let id = execution.threads.active_id().as_usize();
+        (id, execution.threads.active().causality.verif_dump())
+    })
+}
